@@ -1126,7 +1126,7 @@ func builtins() []*Builtin {
 		{"map", []string{"any", "fn"}, 0, nil, func(ev *Evaluator, a []Value) (Value, *Err) {
 			arr, _ := forceArray(a[0])
 			f := a[1].(*Func)
-			argc := clamp(f.ParamCount(), 1, 3)
+			argc := clamp(f.ParamCount(), 0, 3)
 			out := []interface{}{}
 			for i, x := range arr {
 				r, err := ev.Call(f, []Value{x, float64(i), arr}[:argc], Undef)
@@ -1303,7 +1303,7 @@ func builtins() []*Builtin {
 
 func (ev *Evaluator) filter(v Value, f *Func) (Value, *Err) {
 	arr, _ := forceArray(v)
-	argc := clamp(f.ParamCount(), 1, 3)
+	argc := clamp(f.ParamCount(), 0, 3)
 	out := []interface{}{}
 	for i, x := range arr {
 		r, err := ev.Call(f, []Value{x, float64(i), arr}[:argc], Undef)
